@@ -4,6 +4,8 @@ package main
 // the canonical result syntax and the body generator live in c16.go).
 
 import (
+	"hash/fnv"
+	"sort"
 	"strings"
 	"time"
 
@@ -33,6 +35,32 @@ func evalC15(op string, args []string) string {
 	}
 	root := string(unhx(args[1]))
 	p := dictionary.Parser{Opener: o, IgnoreIdenticalAttributes: args[2] == "1"}
+	// history: a Parser value is reusable, and what an earlier walk did (completed or refused at any
+	// depth) must not show in a later one.  For every second case the same Parser first walks from every
+	// file of the file system as root (results ignored); the observed walk starts with a clean trace.
+	if h := fnv.New32a(); len(o.files) <= 6 {
+		h.Write([]byte(args[0] + args[1]))
+		if h.Sum32()%2 == 0 {
+			names := make([]string, 0, len(o.files))
+			for n := range o.files {
+				names = append(names, n)
+			}
+			sort.Strings(names)
+			for _, n := range names {
+				func() {
+					defer func() { recover() }()
+					p.ParseFile(n)
+				}()
+				if o.exceeded {
+					return "DEPTH-EXCEEDED"
+				}
+			}
+			if o.nopen != 0 {
+				return "err Other - 0 - handles-left-open-by-earlier-walks"
+			}
+			o.events = nil
+		}
+	}
 	d, err := p.ParseFile(root)
 	if o.exceeded {
 		return "DEPTH-EXCEEDED"
